@@ -244,7 +244,9 @@ PROPS["C02"] = dict(
               "empty log or one pre-filled to just below/above the batch (10), segment (500) and truncation (1500/2000/3000) boundaries, with or "
               "without a consumer offset file; plus fixed long histories (1100, thorough 2300 messages) that cross those boundaries by themselves. "
               "Oracle: every publish acknowledged to its publisher reached every subscriber with a matching filter, topic and payload intact; nothing "
-              "arrives that was not published or does not match; the log's Get(o) agrees with what Consume handed for o."),
+              "arrives that was not published or does not match; the log's Get(o) agrees with what Consume handed for o. Publishes carry DUP and RETAIN "
+              "flags at random. Back-pressure run: a subscriber stays connected but stops reading for 12 s (thorough 40 s) of real time while 40/90 QoS 1 "
+              "publishes are accepted and acknowledged; when it reads again every acknowledged message must reach it and the other subscriber."),
         note=_L3_NOTE,
         technique="stateful property-based testing of the running broker with a delivery-set oracle (rapid generation + shrinking)",
     ),
@@ -257,6 +259,7 @@ PROPS["C02"] = dict(
         dict(name="long", pkg="c02", run="TestLong", timeout=dict(quick=300, thorough=900)),
         dict(name="random", pkg="c02", run="TestRandom", checks=dict(quick=960, thorough=8000), shards=dict(quick=16, thorough=16),
              timeout=dict(quick=400, thorough=2400), shrinktime="90s"),
+        dict(name="stalled", pkg="c02", run="TestStalledSubscriber", shards=2, timeout=dict(quick=300, thorough=900)),
     ],
 )
 
@@ -369,7 +372,10 @@ PROPS["C14"] = dict(
               "knows. For every generated publish EVERY subset of the remote nodes is made unreachable once (exhaustive over fault subsets inside "
               "each generated configuration). Oracle per publish: exactly one append on each reachable node hosting a matching subscription known to "
               "the publisher's node, none elsewhere (read from recording wrappers around the real logs); every local matching subscription on a "
-              "reached node gets exactly one copy, nobody else any; PUBACK iff every node of the destination set was reached."),
+              "reached node gets exactly one copy, nobody else any; PUBACK iff every node of the destination set was reached. Further fault modes per "
+              "publish: every non-empty subset of remotes executes the call but its reply is lost (caller sees gRPC Unavailable: stored once, no PUBACK, "
+              "nothing twice); one remote is slow (its append takes 0.3 / 2.6 s of real time and succeeds: everything still arrives everywhere). "
+              "Unreachable peers answer with the production transport's own error values (membership.ErrPeerNotFound / ErrPeerDisabled, plain and wrapped)."),
         note=_L3_NOTE,
         technique="property-based generation of configurations with exhaustive enumeration of unreachable-destination subsets per publish",
     ),
